@@ -3,7 +3,7 @@
 
 For every function a rule module inspects (ANCHORS below) three whole-function rewrites are produced with `ast`:
 
-  rename    every local variable (not parameters, not names used by nested scopes) gets the suffix `_r`
+  rename    every local variable (not parameters, not names used by nested scopes) gets an unrelated name `loc<k>q`
   reformat  the function is re-emitted by ast.unparse (layout, parentheses, quotes and comments change)
   negate    every `if c: A else: B` with both branches present becomes `if not c: B else: A`
 
@@ -76,11 +76,12 @@ ANCHORS = {
 
 class Renamer(ast.NodeTransformer):
     def __init__(self, names):
-        self.names = names
+        # new names share no substring with the old ones (a suffix would let text-matching rules keep matching)
+        self.names = {n: "loc%dq" % i for i, n in enumerate(sorted(names))}
 
     def visit_Name(self, node):
         if node.id in self.names:
-            return ast.copy_location(ast.Name(id=node.id + "_r", ctx=node.ctx), node)
+            return ast.copy_location(ast.Name(id=self.names[node.id], ctx=node.ctx), node)
         return node
 
     def visit_FunctionDef(self, node):
